@@ -827,6 +827,64 @@ func (r *rpRun) loadCancelled(b Behaviour, idx int, want []int) {
 	}
 }
 
+// fetchErrors: while a request is being served the reads of some blocks fail (a transient error of the block
+// store or of the provider); the reads work again and the request is made again, then a request for a newer head.
+func (r *rpRun) fetchErrors(deny []int) {
+	if err := r.setup(fmt.Sprintf("ferr%d", len(deny)*10+deny[0])); err != nil {
+		r.res.Inconclusive = append(r.res.Inconclusive, r.bid+": setup: "+err.Error())
+		return
+	}
+	defer r.teardown()
+	r.res.Behaviours++
+	pa := r.nodes["a"].P
+	for _, id := range deny {
+		pa.Deny(r.entries[id].GetHash())
+	}
+	heads := func(ids []int) []ipfslog.Entry {
+		hs := []ipfslog.Entry{}
+		for _, id := range ids {
+			hs = append(hs, copyEntry(r.entries[id]))
+		}
+		return hs
+	}
+	first := r.in.ReqHeads["1"]
+	final := r.in.ReqHeads[fmt.Sprint(r.in.NReq)]
+	_ = r.a.S.Sync(context.Background(), heads(first))
+	if err := sim.Settle(8*time.Second, r.nodes["a"]); err != nil {
+		r.violate("wedged", fmt.Sprintf("after block reads failed (%v) the replica does not come to rest: %v", deny, err), nil, r.a.ReplStats())
+		return
+	}
+	for _, id := range deny {
+		pa.Allow(r.entries[id].GetHash())
+	}
+	_ = r.a.S.Sync(context.Background(), heads(first))
+	if err := sim.Settle(8*time.Second, r.nodes["a"]); err != nil {
+		r.violate("wedged", fmt.Sprintf("after the request was made again the replica does not come to rest: %v", err), nil, r.a.ReplStats())
+		return
+	}
+	r.res.Comparisons++
+	want, got := r.reach(first), r.logIDs()
+	for _, id := range want {
+		if !contains(got, id) {
+			r.violate("missing", fmt.Sprintf("the reads of blocks %v failed while the request for heads %v was served; they work again and the request was made again: entry %d never becomes visible", deny, first, id), want, got)
+			return
+		}
+	}
+	_ = r.a.S.Sync(context.Background(), heads(final))
+	if err := sim.Settle(8*time.Second, r.nodes["a"]); err != nil {
+		r.violate("wedged", fmt.Sprintf("after a request for newer heads the replica does not come to rest: %v", err), nil, r.a.ReplStats())
+		return
+	}
+	r.res.Comparisons++
+	want, got = r.reach(final), r.logIDs()
+	for _, id := range want {
+		if !contains(got, id) {
+			r.violate("missing", fmt.Sprintf("after failed block reads (%v) and a request for newer heads %v entry %d never becomes visible", deny, final, id), want, got)
+			return
+		}
+	}
+}
+
 // longOutage: a request is made while nobody provides the blocks; the outage lasts long (fetches that give up
 // after a while must not count as done); then the provider is back and the request is made again.
 func (r *rpRun) longOutage(d time.Duration) {
@@ -888,6 +946,12 @@ func replicatorCmd(args []string) int {
 	for i, b := range in.Behaviours {
 		r := &rpRun{in: in, res: res, bid: b.ID}
 		r.run(b, i)
+	}
+	if in.Dag == "A" {
+		for _, deny := range [][]int{{2}, {1}, {1, 2}, {3}} {
+			r := &rpRun{in: in, res: res, bid: fmt.Sprintf("fetch-error-%v", deny)}
+			r.fetchErrors(deny)
+		}
 	}
 	if in.LongOutage > 0 && in.Dag == "A" {
 		r := &rpRun{in: in, res: res, bid: "long-outage"}
